@@ -34,7 +34,8 @@ Inductive act :=
 | XReplace (c : cellsel)         (* graphs[graph_id] := relabelled graph  (= XDel; XInsRange) *)
 | XMutOther                      (* mutation that leaves the node set alone (edges) *)
 | XRetCtrM1 (c : cellsel)        (* return counter - 1 *)
-| XRetBase.                      (* return base *)
+| XRetBase                       (* return base *)
+| XNewLock.                      (* the lock OBJECT is replaced: assignment to self.lock, call of self.__init__ *)
 
 Inductive cond := CFree | CFound | CNotFound.
 Inductive fclass := FNever | FWeak | FDecl.
@@ -58,7 +59,8 @@ Inductive stmt :=
 | SLoop (ln : N) (f : fclass) (body : stmt)
 | STry (ln : N) (body : stmt) (hl : option N) (hs : stmt) (fin : stmt)   (* hl = line of `except Exception` *)
 | SReturn (ln : N) (a : act) (f : fclass)
-| SRaise (ln : N).
+| SRaise (ln : N)
+| SWith (ln : N) (body : stmt).   (* `with self.lock:` = acquire at ln; body; release at ln on every exit *)
 
 Inductive outcome := ONormal | OReturn | ORaise | OFuel.
 
@@ -140,6 +142,7 @@ Fixpoint exec (fm : fmode) (fuel : nat) (s : stmt) (p : path) {struct s} : xres 
   | STry ln body hl hs fin => try_exec ln (exec fm fuel body) hl (exec fm fuel hs) (exec fm fuel fin) p
   | SReturn ln a f => guard_fault fm f ln p (fun p' => (OReturn, [(ln, KAct a)], p'))
   | SRaise ln => (ORaise, [(ln, KAct XLocal)], p)
+  | SWith ln body => pre (ln, KAcq) (fstage (exec fm fuel body p) (fun q => (ONormal, [(ln, KRel)], q)))
   end.
 
 (* enough fuel for any loop: every further iteration consumes one `true` of the path *)
@@ -159,7 +162,18 @@ Fixpoint accept (tf : auto) (a : N) (evs : list event) : option N :=
 
 (* the lock automaton: 0 = free, 1 = held.  A non-reentrant threading.Lock: acquire while held blocks
    forever, release while free raises RuntimeError. *)
+Definition is_relock (k : evkind) : bool :=
+  match k with KAct XNewLock => true | KIf XNewLock _ _ => true | _ => false end.
+
+(* generation of the lock object after a trace: it must never change *)
+Fixpoint lock_gen (evs : list event) (g : N) : N :=
+  match evs with
+  | [] => g
+  | (_, k) :: r => lock_gen r (if is_relock k then g + 1 else g)
+  end.
+
 Definition lockA : auto := fun a k =>
+  if is_relock k then None else
   match k with
   | KAcq => if a =? 0 then Some 1 else None
   | KRel => if a =? 1 then Some 0 else None
@@ -248,6 +262,11 @@ Fixpoint ab (tf : auto) (fm : fmode) (s : stmt) (a : N) {struct s} : res :=
       end
   | SReturn _ x f => with_fault tf fm f a (st_r (tf a (KAct x)))
   | SRaise _ => st_x (tf a (KAct XLocal))
+  | SWith _ body =>
+      match tf a KAcq with
+      | None => rbad
+      | Some a0 => fres (ab tf fm body a0) (fun a' => st_n (tf a' KRel))
+      end
   end.
 
 Definition sel (o : outcome) (r : res) : list N :=
@@ -290,6 +309,7 @@ Fixpoint fnever_lines (s : stmt) : list N :=
   | SSeq s1 s2 => fnever_lines s1 ++ fnever_lines s2
   | SLoop ln f b => (match f with FNever => [ln] | _ => [] end) ++ fnever_lines b
   | STry _ b _ hs fin => fnever_lines b ++ fnever_lines hs ++ fnever_lines fin
+  | SWith _ b => fnever_lines b
   | _ => []
   end.
 
